@@ -132,13 +132,16 @@ def r2(chk):
     F = c18.raire_reader_facts(fr)
     rk = F.get("rank")
     if rk is not None:
-        start = Tx().expr(rk["start"])
-        rank = Tx(env={rk["j"]: E(S("j"))}).expr(rk["value"])
-        if isinstance(rank, E) and isinstance(start, E):
-            d = sp.simplify(rank.e - S("j"))
-            if d.is_Number and start.e.is_Number:
-                # column j holds the (j - start + 1)-th listed candidate; its rank is j + d
-                base_core = (int(start.e), int(d))
+        col = c18.column_and_rank(rk, F.get("row"))
+        if col is not None:
+            K, Rk, a, b = col
+            j_ = S("j")
+            d = sp.simplify(Rk - K)
+            first_col = sp.simplify(K.subs(j_, a))
+            if d.is_Number and first_col.is_Number and is_zero(sp.diff(K, j_) - 1) \
+                    and is_zero(K.subs(j_, b) - Tx().expr(ast.parse(f"len({F.get('row')})", mode="eval").body).e):
+                # the token in column c (first candidate column = first_col) gets rank c + d
+                base_core = (int(first_col), int(d))
     ok = base_core == (2, -1)
     chk.ob("C14.R2", W("CVR.from_raire"), "core-rank=k", ok,
            "audit-side reader: the token in column j >= 2 (the (j-1)-th listed candidate) gets rank j - 1: ranks are 1-based", node=fr,
